@@ -2,6 +2,7 @@ package main
 
 import (
 	"fmt"
+	"github.com/flosch/pongo2/v6"
 	"strings"
 )
 
@@ -284,6 +285,20 @@ func execC15(r *run, c caseT) {
 	po, _ := plain.render(stripped, false, ctx)
 	if strings.Contains(src, "-") {
 		r.nontrivial(c.args[0] + c.args[3])
+	}
+	if po.obs == o.obs && (w.trim || w.lstrip) && !strings.Contains(src, "-") {
+		// the same through a history: compiled and executed with the options off, then the
+		// options are switched on for this template and it is executed again
+		if tpl, err := pongo2.FromString(src); err == nil {
+			first, e1 := tpl.Execute(ctx.goContext())
+			tpl.Options.TrimBlocks, tpl.Options.LStripBlocks = w.trim, w.lstrip
+			second, e2 := tpl.Execute(ctx.goContext())
+			if e1 == nil && e2 == nil && obsOK(second) != o.obs {
+				r.reject(id, "block options switched on after a first execution are not applied like on a fresh template",
+					map[string]any{"source": src, "options": w.opts(), "first": first, "second": second, "fresh": o.obs})
+				return
+			}
+		}
 	}
 	if po.obs != o.obs {
 		r.reject(id, "the marked source does not render like the source with that white space deleted by hand",
